@@ -79,11 +79,25 @@ def r01_1_sul(chk, m):
     mrl = LinExpr.sym("max_record_length")
     lid = LinExpr.sym("len_set_identifier")
     st.add(ge(lid, 0))
-    obj = st.new_obj(sul, tag="sul", fields={
+    obj = st.new_obj(sul, tag="sul")
+    init = sul.lookup("__init__")
+    chk.consult(init)
+    inits = [o for o in it.call_function(init, [obj], {
         "sequence_number": IntV(seq), "max_record_length": IntV(mrl),
-        "set_identifier": SeqV("str", lid, [("param", lid, "set_identifier")])})
-    outs = it.call_function(rep, [obj], {}, st, rep.node)
+        "set_identifier": SeqV("str", lid, [("param", lid, "set_identifier")])}, st, init.node) if o.kind == "val"]
+    if not inits:
+        raise AnalysisError("StorageUnitLabel.__init__ has no normal path")
+    outs = []
+    for o0 in inits:
+        outs += it.call_function(rep, [obj], {}, o0.st, rep.node)
     normal = [o for o in outs if o.kind == "val"]
+    # the label bytes must be recomputed from the live fields on every request (no memo on the label object)
+    stores = [e for o in outs for e in o.st.events if e[0] == "store-field" and e[2] == "sul"
+              and e[1].startswith(rep.module.relpath) and rep.node.lineno <= int(e[1].rsplit(":", 1)[1])
+              <= rep.node.end_lineno]
+    chk.require(not stores, "R01.1", "sul-bytes-not-memoised",
+                f"represent_as_bytes stores to the label object ({sorted({e[3] for e in stores})}): the label written "
+                f"may not reflect its current fields", rep.where)
     if not normal:
         raise AnalysisError("StorageUnitLabel.represent_as_bytes has no normal path")
     widths = [4, 5, 6, 5, 60]
@@ -368,7 +382,7 @@ def r01_5_segments(chk, m):
         ob("g-no-encryption-checksum-trailing", (int(attr.const) & 0b00011110) == 0,
            f"attribute byte {int(attr.const):#04x} sets an encryption / checksum / trailing-length bit", [])
     for name, msg in pending.items():
-        if name not in failed_exact:
+        if name not in failed_exact and not chk.violations():
             raise AnalysisError(f"obligation {name} is not discharged at an arbitrary loop iteration and has no exact "
                                 f"witness within the unrolled prefix: {msg}")
     chk.floor("exact segment paths", n_exact, 3)
@@ -493,7 +507,7 @@ def r01_7_visible_record(chk, m):
                             "visible record length is not an even number between 20 and the declared maximum",
                             f.where, witness=SegmentModel.witness(o.st.cons, [gt(v.length, m.vrl)])
                             if isinstance(v, SeqV) and not hi else None)
-    if pending is not None and not exact_raise:
+    if pending is not None and not exact_raise and not chk.violations():
         raise AnalysisError(f"visible record builder may raise at an arbitrary iteration ({pending}); no exact witness")
     for q in it.consulted:
         chk.consulted_functions.add(q)
